@@ -171,8 +171,8 @@ def decItem (tok : String) : Option Codegen.Item :=
   | ["ctail"] => some .callableTail
   | ["ihead", l, d, ob, pu] => do pure (.inlineDefHead (← l.toNat?) (← b d) (← b ob) (← b pu))
   | ["itail"] => some .inlineDefTail
-  | ["finish", l, pl, cs, rt, ob] => do pure (.finish (← l.toNat?) (← b pl) (← b cs) (← b rt) (← b ob))
-  | ["callhead"] => some .callHead
+  | ["finish", l, pl, cs, rt, ob, mk] => do pure (.finish (← l.toNat?) (← b pl) (← b cs) (← b rt) (← b ob) (← b mk))
+  | ["callhead", l] => do pure (.callHead (← l.toNat?))
   | ["calltail", l] => do pure (.callTail (← l.toNat?))
   | ["tthead"] => some .textTagHead
   | ["tttail", l] => do pure (.textTagTail (← l.toNat?))
